@@ -91,12 +91,16 @@ Proof. apply bytes_copy_nat. Qed.
 Lemma bytes_sub l a b : bytes l -> bytes (sub l a b).
 Proof. intros H. unfold sub. apply bytes_firstn, bytes_skipn, H. Qed.
 
+Lemma length_stale_from n x : length (stale_from n x) = n.
+Proof. revert x; induction n as [|n IH]; intros x; cbn [stale_from length]; auto. Qed.
 Lemma len_stale g i n : len (stale g i n) = n.
-Proof. unfold len, stale. rewrite map_length, seq_length. lia. Qed.
+Proof. unfold len, stale. rewrite length_stale_from. lia. Qed.
 Lemma bytes_stale g i n : bytes (stale g i n).
 Proof.
-  unfold bytes, stale. apply Forall_forall. intros x Hx. apply in_map_iff in Hx.
-  destruct Hx as (j & <- & _). unfold stale_byte. lia.
+  unfold bytes, stale. generalize (N.to_nat n) as m, (stale_start g i).
+  induction m as [|m IH]; intros x; cbn [stale_from]; constructor.
+  - change 127 with (N.ones 7). rewrite N.land_ones. change (2 ^ 7) with 128. lia.
+  - apply IH.
 Qed.
 
 Lemma bytes_zeros n : bytes (zeros n).
